@@ -90,6 +90,16 @@ def check_c13(mon, settings, out, tag):
                     wit = {'value': v, 'times': n, 'pids': [pid for pid, sq in seqs.items() if v in sq][:6], 'distinct': len(cnt), 'draws': len(allv)}
                 mon.check('continuous-input-values-distinct', not rep, mechanism='C13/replicated-draws-of-one-input-across-workers:' + d[0]
                           if rep and len(wit['pids']) > 1 else 'C13/replicated-draws-of-one-input:' + d[0], name=nm, witness_=wit, **tag)
+            if len(allv) >= 8:
+                # a draw from a continuous distribution is a double with 15-17 significant digits; values cut to a handful of
+                # digits on their way into the input file are draws from a coarse grid, not from the requested distribution
+                def sig(txt):
+                    m = txt.strip().lower().lstrip('+-').split('e')[0].replace('.', '').lstrip('0')
+                    return len(m.rstrip('0')) if m else 0
+                short = [v for v in allv if sig(v) <= 8]
+                mon.check('continuous-samples-not-discretised', len(short) < 0.5 * len(allv),
+                          mechanism='C13/continuous-samples-cut-to-a-few-significant-digits:' + d[0], name=nm,
+                          short=len(short), draws=len(allv), examples=short[:4], **tag)
         else:
             # discrete input: two workers with identical sequences of >= 12 draws (chance < 1e-7 per pair for the settings used)
             pids = [pid for pid, sq in seqs.items() if len(sq) >= 12]
@@ -214,7 +224,7 @@ def run(ctx):
                          'worker_counts': sorted({w for _, w, _ in plans}),
                          'iteration_counts': sorted({st['iterations'] for st, _, _ in plans})})
     ctx.required.update({'rows-exactly-once': 8, 'sample-vectors-distinct': 8, 'samples-in-support': 20,
-                         'continuous-input-values-distinct': 20, 'worker-sequences-differ': 1,
+                         'continuous-input-values-distinct': 20, 'continuous-samples-not-discretised': 20, 'worker-sequences-differ': 1,
                          'marginal-distribution': 6, 'every-iteration-started': 8})
     ctx.rule = ('Monte-Carlo runs of the real client over settings files mixing uniform / normal / triangular / lognormal / '
                 'binomial inputs (GEOPHIRES fast base and HIP-RA-X), iteration counts {1,3,16,17,40,120,300(,1000)}, the pool '
